@@ -14,10 +14,6 @@ Number or Null. Where the server as it is (`junoCfg`, `handleInputF`) deviates, 
 
   * `"id": null` is treated as a notification                      → `request_with_null_id_not_answered`
   * a single valid-JSON non-request is answered -32700             → `single_invalid_request_answered_with_parse_error`
-  * an Invalid Request answer echoes an array / object / bool id   → `invalid_request_echoes_structured_id`
-  * a handler that panics or returns an unmarshallable value costs
-    the response                                                   → `handler_failure_loses_response`
-  * a batch after 128 or more blanks is not recognised             → `batch_after_128_blanks_not_recognised`
 
 `*_before_<commit>` theorems are regression witnesses for defects already repaired in /repo.
 Statements that are true by construction of the model are in ProofsMisc.lean, not here.
@@ -64,32 +60,25 @@ theorem nil_result_defect_before_6b06fc7 :
   have := isResponse_members hr
   simp at this
 
-/-- FULL (repaired `legalIdEchoOnly`): every response, to any JSON value whatsoever, carries a String, a
-Number or Null as id. -/
-theorem response_id_is_legal (cfg : Config) (hfix : cfg.legalIdEchoOnly = true) (env : Env) (tbl : Table)
-    (c : Int) (j : Json) (r : Response) (h : (handleEntry cfg env tbl c j).1 = some r) : LegalId r.id := by
+/-- FULL, for the server as it is (since dfb1bec): every response, to any JSON value whatsoever, in a batch or
+alone, carries a String, a Number or Null as id. -/
+theorem response_id_is_legal (env : Env) (tbl : Table) (c : Int) (j : Json) (r : Response)
+    (h : (handleEntry junoCfg env tbl c j).1 = some r) : LegalId r.id := by
   rw [handleEntry_eq] at h
-  rw [entrySpec_id cfg env c _ r h]
-  exact stage_id_legal_repaired cfg hfix env tbl j
+  rw [entrySpec_id junoCfg env c _ r h]
+  exact stage_id_legal_repaired junoCfg rfl env tbl j
 
-/-- PARTIAL (server as it is): … provided the request's own `id` member, if any, is a String, a Number or
-Null. What is missing: see `invalid_request_echoes_structured_id`. -/
-theorem response_id_is_legal_partial (env : Env) (tbl : Table) (c : Int) (kvs : List (String × Json))
-    (hp : PlainMembers kvs) (hid : IdScalarOrAbsent kvs) (r : Response)
-    (h : (handleEntry junoCfg env tbl c (.obj kvs)).1 = some r) : LegalId r.id :=
-  response_id_legal_plain env tbl c kvs hp hid r h
-
-/-- DEFECT (server as it is): `{"jsonrpc":"1.0","id":[1]}` is answered with `"id":[1]` — not a legal
-response id; with `legalIdEchoOnly` the answer carries Null. -/
-theorem invalid_request_echoes_structured_id :
-    (handleInput junoCfg nilEnv oneMethod
+/-- REGRESSION WITNESS (repaired by dfb1bec): `{"jsonrpc":"1.0","id":[1]}` was answered with `"id":[1]` — not a
+legal response id; the current server answers with id Null. -/
+theorem structured_id_echo_defect_before_dfb1bec :
+    (handleInput { junoCfg with legalIdEchoOnly := false } nilEnv oneMethod
         (singleInput (.obj [("jsonrpc", .str "1.0"), ("id", .arr [.num "1"])]))).body
       = some (.obj [("jsonrpc", .str "2.0"),
                     ("error", .obj [("code", .num "-32600"), ("message", .str "Invalid Request"),
                                     ("data", .str "unsupported RPC request version")]),
                     ("id", .arr [.num "1"])])
     ∧ ¬ LegalId (.arr [.num "1"])
-    ∧ (handleEntry { junoCfg with legalIdEchoOnly := true } nilEnv oneMethod (-32700)
+    ∧ (handleEntry junoCfg nilEnv oneMethod (-32700)
         (.obj [("jsonrpc", .str "1.0"), ("id", .arr [.num "1"])])).1.map (·.id) = some .null := by
   exact ⟨by rfl, by simp [LegalId], by rfl⟩
 
@@ -112,33 +101,41 @@ theorem request_meets_spec_partial (env : Env) (tbl : Table) (c : Int) (j : Json
     MeetsSpec junoCfg env tbl j (handleEntry junoCfg env tbl c j) :=
   entry_meets_spec env tbl c j htbl hplain hdefinite hnotnull hdec
 
-/-- PARTIAL, for whole inputs (single request or batch of any length) and handlers that neither panic nor
-return unmarshallable values: every request value meets the specification (`MeetsSpec`), the body is
-exactly the responses of the request values, in request order, put on the wire (`assemble`: nothing /
-the object / the array), the invocation log is exactly the calls the specification demands, in order,
-and `HandleReader` neither fails nor panics. (The real server answers a batch in the order its workers
-finish: the harness compares multisets.) -/
+/-- PARTIAL (only because of the two deviations in `Judged`), for whole inputs (single request or batch of any
+length) and ARBITRARY handlers — also ones that panic or return values `json.Marshal` rejects, which the server
+(since 6442b48) turns into -32603 Internal error (`Env.sanitize`): every request value meets the
+specification (`MeetsSpec`), the body is exactly the responses of the request values, in request order, put on
+the wire (`assemble`: nothing / the object / the array), the invocation log is exactly the calls the
+specification demands, in order, and `HandleReader` neither fails nor panics. (The real server answers a
+batch in the order its workers finish: `every_schedule_answers_every_entry`, and multisets in the harness.) -/
 theorem input_meets_spec_partial (env : Env) (tbl : Table) (inp : Input) (es : List Json)
-    (hes : inp.entries junoCfg = some es) (htbl : TableOk tbl) (hok : HandlersOk env)
+    (hes : inp.entries junoCfg = some es) (htbl : TableOk tbl)
     (hj : ∀ e ∈ es, Judged (!(inp.batch? junoCfg).isSome) e) :
-    (∀ e ∈ es, MeetsSpec junoCfg env tbl e (handleEntry junoCfg env tbl (inp.decodeFailCode junoCfg) e)) ∧
+    (∀ e ∈ es, MeetsSpec junoCfg env.sanitize tbl e (handleEntry junoCfg env.sanitize tbl (inp.decodeFailCode junoCfg) e)) ∧
     (handleInputF junoCfg env tbl inp).body =
       assemble (inp.batch? junoCfg).isSome
-        ((es.filterMap (fun e => (handleEntry junoCfg env tbl (inp.decodeFailCode junoCfg) e).1)).map Response.toJson) ∧
+        ((es.filterMap (fun e => (handleEntry junoCfg env.sanitize tbl (inp.decodeFailCode junoCfg) e).1)).map Response.toJson) ∧
     (handleInputF junoCfg env tbl inp).log =
-      es.flatMap (fun e => (handleEntry junoCfg env tbl (inp.decodeFailCode junoCfg) e).2) ∧
+      es.flatMap (fun e => (handleEntry junoCfg env.sanitize tbl (inp.decodeFailCode junoCfg) e).2) ∧
     (handleInputF junoCfg env tbl inp).goError = false ∧ (handleInputF junoCfg env tbl inp).panicked = false :=
-  input_meets_spec env tbl inp es hes htbl hok hj
+  input_meets_spec_all env tbl inp es hes htbl hj
+
+/-- … and what a request gets when its handler fails: -32603 Internal error carrying the request's id
+(so, by `input_meets_spec_partial`, every request with an id is answered even when its handler panics or
+returns an unmarshallable value). -/
+theorem failing_handler_is_answered_internal_error (env : Env) (n : String) (a : List Json) (id : Json)
+    (h : (env.call n a).faulty = true) :
+    IsErrorResponse (-32603) id (handlerResponse junoCfg (env.sanitize.call n a) id).toJson :=
+  failing_handler_answer junoCfg env n a id h
 
 /-- PARTIAL: no output ⇔ the input is not refused as a whole and every request value in it is a
 notification in the sense of the specification (a Request object without `id` member) — for inputs
-whose request values are `Judged` (in particular none has `"id": null`) and well-behaved handlers. -/
+whose request values are `Judged` (in particular none has `"id": null`), arbitrary handlers. -/
 theorem silent_iff_all_notifications_partial (env : Env) (tbl : Table) (inp : Input) (htbl : TableOk tbl)
-    (hok : HandlersOk env)
     (hj : ∀ es, inp.entries junoCfg = some es → ∀ e ∈ es, Judged (!(inp.batch? junoCfg).isSome) e) :
     (handleInputF junoCfg env tbl inp).body = none ↔
       ∃ es, inp.entries junoCfg = some es ∧ ∀ e ∈ es, (specKind e).isNotification = true :=
-  silent_iff_spec env tbl inp htbl hok hj
+  silent_iff_spec_all env tbl inp htbl hj
 
 /-- DEFECT (server as it is): `{"jsonrpc":"2.0","method":"m","id":null}` is a request by the
 specification (`specKind` = request with id Null, to be answered with id null); the server runs the
@@ -252,25 +249,26 @@ def faultyEnv : Env :=
                           else { result := some (.arr args) } }
 def faultyTable : Table := [{ name := "m", params := [] }, { name := "p", params := [] }, { name := "ok", params := [] }]
 
-/-- DEFECT (server as it is): a request whose handler returns an unmarshallable value gets no answer —
+/-- REGRESSION WITNESS (repaired by 6442b48): a request whose handler returned an unmarshallable value got no answer —
 single: `HandleReader` fails (HTTP: 500 with an empty body, WebSocket: connection closed); in a batch
 the entry is silently missing (`[m#1, ok#2]` → only #2 answered), and a batch of such entries gives no
 output at all. A panicking handler in a batch is swallowed by the worker pool: its entry is missing,
-the caller sees no panic. With `internalErrorOnHandlerFailure` each is answered -32603. -/
-theorem handler_failure_loses_response :
+the caller sees no panic. The current server answers each with -32603. -/
+theorem handler_failure_defect_before_6442b48 :
+    let oldCfg : Config := { junoCfg with internalErrorOnHandlerFailure := false }
     let single : Input := singleInput (request "m" [("id", .num "1")])
     let batch : Input :=
       batchInput [request "m" [("id", .num "1")], request "ok" [("id", .num "2")], request "p" [("id", .num "3")]]
     let allLost : Input := batchInput [request "m" [("id", .num "1")]]
-    (handleInputF junoCfg faultyEnv faultyTable single).body = none
-    ∧ (handleInputF junoCfg faultyEnv faultyTable single).goError = true
-    ∧ (handleInputF junoCfg faultyEnv faultyTable batch).body
+    (handleInputF oldCfg faultyEnv faultyTable single).body = none
+    ∧ (handleInputF oldCfg faultyEnv faultyTable single).goError = true
+    ∧ (handleInputF oldCfg faultyEnv faultyTable batch).body
         = some (.arr [.obj [("jsonrpc", .str "2.0"), ("result", .arr []), ("id", .num "2")]])
-    ∧ (handleInputF junoCfg faultyEnv faultyTable batch).panicked = false
-    ∧ (handleInputF junoCfg faultyEnv faultyTable batch).log = [("m", []), ("ok", []), ("p", [])]
-    ∧ (handleInputF junoCfg faultyEnv faultyTable allLost).body = none
+    ∧ (handleInputF oldCfg faultyEnv faultyTable batch).panicked = false
+    ∧ (handleInputF oldCfg faultyEnv faultyTable batch).log = [("m", []), ("ok", []), ("p", [])]
+    ∧ (handleInputF oldCfg faultyEnv faultyTable allLost).body = none
     ∧ IsErrorResponse (-32603) (.num "1")
-        ((handleInputF { junoCfg with internalErrorOnHandlerFailure := true } faultyEnv faultyTable single).body.getD .null) := by
+        ((handleInputF junoCfg faultyEnv faultyTable single).body.getD .null) := by
   exact ⟨by rfl, by rfl, by rfl, by rfl, by rfl, by rfl, ⟨"Internal error", some opaqueData, by rfl⟩⟩
 
 /-! ## 5b. A batch under every schedule and every deadline (`ModelBatch.lean`) -/
@@ -312,30 +310,20 @@ theorem batch_never_stuck (cfg : Config) (env envLate : Env) (tbl : Table) (pool
 
 /-! ## 6. Batch recognition -/
 
-/-- FULL (repaired `peekLimit = none`): every input whose first non-blank byte is `[` is handled as
-a batch. -/
-theorem array_input_is_batch (cfg : Config) (inp : Input) (hfix : cfg.peekLimit = none)
-    (h : inp.firstIsBracket = true) : isBatch cfg inp = true := by
-  rw [isBatch_iff]; exact ⟨h, by simp [hfix]⟩
+/-- FULL, for the server as it is (since 4590891): every input whose first non-blank byte is `[` is handled as a
+batch, however many blanks precede it. -/
+theorem array_input_is_batch (inp : Input) (h : inp.firstIsBracket = true) : isBatch junoCfg inp = true := by
+  rw [isBatch_iff]; exact ⟨h, by simp [junoCfg]⟩
 
-/-- PARTIAL (unchanged server): … provided fewer than 128 blank bytes precede the `[`. What is
-missing: see `batch_after_128_blanks_not_recognised`. -/
-theorem array_input_is_batch_partial (inp : Input) (h : inp.firstIsBracket = true)
-    (hws : inp.leadWs < 128) : isBatch junoCfg inp = true := by
-  rw [isBatch_iff]; refine ⟨h, ?_⟩; intro n hn; simp [junoCfg] at hn; omega
-
-/- Full-strength statement for the unchanged server, FALSE (refuted just below), kept for the record:
-     theorem array_input_is_batch_juno (inp : Input) (h : inp.firstIsBracket = true) : isBatch junoCfg inp = true
-   It becomes `array_input_is_batch` with proposed-fixes/C11-batch-after-blanks.diff. -/
-
-/-- DEFECT (unchanged server): 128 blanks followed by a valid one-element batch: one -32700 error
-object instead of the array of responses, and the handler does not run. -/
-theorem batch_after_128_blanks_not_recognised :
+/-- REGRESSION WITNESS (repaired by 4590891): 128 blanks followed by a valid one-element batch got one -32700
+error object instead of the array of responses, and the handler did not run; the current server runs it. -/
+theorem batch_after_128_blanks_defect_before_4590891 :
     let inp : Input := { leadWs := 128, firstIsBracket := true,
                          parsed := some (.arr [request "m" [("id", .num "1")]]) }
-    IsErrorResponse (-32700) .null ((handleInput junoCfg nilEnv oneMethod inp).body.getD .null)
-    ∧ (handleInput junoCfg nilEnv oneMethod inp).log = []
-    ∧ (handleInput { junoCfg with peekLimit := none } nilEnv oneMethod inp).log = [("m", [])] := by
+    let oldCfg : Config := { junoCfg with peekLimit := some 128 }
+    IsErrorResponse (-32700) .null ((handleInput oldCfg nilEnv oneMethod inp).body.getD .null)
+    ∧ (handleInput oldCfg nilEnv oneMethod inp).log = []
+    ∧ (handleInput junoCfg nilEnv oneMethod inp).log = [("m", [])] := by
   refine ⟨⟨"Parse error", some opaqueData, by rfl⟩, by rfl, by rfl⟩
 
 /-- The optional-tail hypothesis of `positional_named_same_args` is necessary: with an optional
@@ -368,14 +356,16 @@ theorem pretty_window_invariant (chunks : List (List UInt8)) :
   have := Pretty.suffix_writes {} [] chunks (by simp [Pretty.Win.IsSuffixOf])
   simpa using this
 
-/-- For every sequence of reads and every decode error (any offset, also 0 or negative): if a caret
+/-- For every sequence of reads, every number of leading blanks `isBatch` consumed before the decoder started
+(`skippedBytes`, at most what was read) and every decode error (any offset, also 0 or negative): if a caret
 is drawn, its position lies inside the window — so none of the
 slices `window[markerPos:]`, `window[:markerPos]`, `input[offset:]` in `lineAndColumn`,
 `offendingLine`, `describeSyntaxError`, `precedingLines` can panic. -/
-theorem pretty_error_indices_in_range (chunks : List (List UInt8)) (err : Pretty.DecodeErr)
-    (pos : Pretty.Pos) (h : Pretty.position (Pretty.Win.writes {} chunks) err = some pos) :
+theorem pretty_error_indices_in_range (chunks : List (List UInt8)) (err : Pretty.DecodeErr) (skipped : Nat)
+    (hsk : skipped ≤ (Pretty.Win.writes {} chunks).consumedBytes)
+    (pos : Pretty.Pos) (h : Pretty.position (Pretty.Win.writes {} chunks) err skipped = some pos) :
     pos.markerPos ≤ (Pretty.Win.writes {} chunks).window.length :=
-  (Pretty.position_in_range _ err pos (Pretty.inv_writes _ _ Pretty.inv_init) h).1
+  (Pretty.position_in_range _ err pos (Pretty.inv_writes _ _ Pretty.inv_init) skipped hsk h).1
 
 /-- `truncateAround` for a line of any length and any column ≥ 1: the rune slice `[start:end]` is
 valid and the caret column stays ≥ 1 (`strings.Repeat(" ", markerCol-1)` gets no negative count). -/
